@@ -121,6 +121,32 @@ func fidelityCorpus(fe *fidEngine) {
 			Files: []fileSpec{{Name: "shown.txt", DiskName: "ondisk.bin", Content: "xyz", Via: 3, Field: "doc"}, {Name: "only-path.dat", Content: "q", Via: 4}}}
 		fe.runConfig(c, cf, 2)
 	})
+	// path-parameter values with URL-special bytes; each class its own case
+	for _, x := range []struct{ name, v string }{{"question-mark", "a?b"}, {"hash", "a#b"}, {"percent-escape", "a%20b"}, {"slash", "a/b"}, {"backslash", "a\\b"}, {"percent-no-escape", "a%zb"}, {"space", "a b"}} {
+		v := x.v
+		e.Corpus("path-param-value-"+x.name, func(c *ev.Case) {
+			fe.runConfig(c, &config{Method: "GET", Tmpl: tmpl("/echo/", ":value"), Req: level{PathP: []single{s1("value", v)}}}, 2)
+		})
+	}
+	e.Corpus("path-param-value-substituted-again", func(c *ev.Case) {
+		fe.runConfig(c, &config{Method: "GET", Tmpl: tmpl("/echo/", ":value"), Req: level{PathP: []single{s1("value", "x:id"), s1("id", "5")}}}, 8)
+	})
+	e.Corpus("path-param-substituted-in-host-port", func(c *ev.Case) {
+		fe.runConfig(c, &config{Method: "GET", HostPort: "fid.test:80", Tmpl: tmpl("/echo"), Req: level{PathP: []single{s1("80", "X")}}}, 2)
+	})
+	e.Corpus("url-query-with-second-question-mark", func(c *ev.Case) {
+		fe.runConfig(c, &config{Method: "GET", Tmpl: tmpl("/echo/x"), URLQuery: []kv{{"a", "b?c"}, {"d", "e"}}}, 2)
+	})
+	for _, n := range []string{"User-Agent", "Referer", "Accept"} {
+		n := n
+		e.Corpus("special-header-through-header-api-"+n, func(c *ev.Case) {
+			fe.runConfig(c, &config{Method: "POST", Tmpl: tmpl("/h"), Req: level{Hdr: []multi{m1(n, 1, "text/mine")}}, Body: bJSON, JSONVal: map[string]any{"a": 1.0}}, 2)
+		})
+	}
+	e.Corpus("same-request-sent-twice", func(c *ev.Case) {
+		fe.runConfig(c, &config{Method: "GET", Tmpl: tmpl("/twice"), Twice: true,
+			Req: level{Hdr: []multi{m1("X-One", 0, "1")}, Query: []multi{m1("q", 0, "1")}, Cookies: []single{s1("c", "1")}}}, 2)
+	})
 	e.Corpus("struct-setters", func(c *ev.Case) { fe.runStructs(c) })
 	e.Corpus("precedence-all-kinds", func(c *ev.Case) {
 		cf := &config{Method: "POST", UseBase: true, Tmpl: tmpl("/p/", ":name"),
